@@ -8,3 +8,11 @@ var VerifReadAt func(f *os.File, buf []byte, offset int64) (int, error)
 
 // vKeep stands for zstd.CompressLevel: blocks are stored uncompressed.
 func vKeep(_ func([]byte, []byte, int) []byte, data []byte) []byte { return data }
+
+// vNoCompress / vNoDecompress stand for zstd: the payload is stored as it is.
+func vNoCompress(_ func([]byte, []byte, int) []byte, src, dst []byte, _ int) []byte {
+	return append(dst, src...)
+}
+func vNoDecompress(_ func([]byte, []byte) ([]byte, error), src, dst []byte) ([]byte, error) {
+	return append(dst, src...), nil
+}
